@@ -17,6 +17,6 @@ PROP = {
 
 # (category, text, design_ref, technique)
 LEVEL = ("other",
-         "The decision logic is proved outright in Lean (object_iff_no_error given a working back end and consistent unsafe tracking; errors_build_nothing; clean_program_is_built; the two hypotheses are shown necessary by cranelift_error_exit0_counterexample and unsafe_without_error_panics). Whether the real stages satisfy the hypotheses is checked, not proved: each run builds generated well-typed programs and five mutants of each (one rule-breaking snippet out of a catalog of 41 type / mutability / const / scope / syntax errors, walked round-robin so that every snippet occurs in every run, placed in main — top level, `if true`, `while false`, block, defer, comptime block, uncalled lambda —, in a helper function, in an unused global function or in an uncalled function of an imported file) with the real CLI and checks errors <-> no object, no-error -> nothing flagged and executable built, error -> flagged and nothing generated, and agreement with the gate model.",
+         "The decision logic is proved outright in Lean (object_iff_no_error given a working back end and consistent unsafe tracking; errors_build_nothing; clean_program_is_built; the two hypotheses are shown necessary by cranelift_error_exit0_counterexample and unsafe_without_error_panics). Whether the real stages satisfy the hypotheses is checked, not proved: each run builds generated well-typed programs and five mutants of each (one rule-breaking snippet out of a catalog of 41 type / mutability / const / scope / syntax errors, walked round-robin so that every snippet occurs in every run, placed in main — top level, `if true`, `while false`, block, defer, comptime block, uncalled lambda —, in a helper function, in an unused global function, in an uncalled function of an imported file, or in a function of an imported file that the entry file evaluates at compile time) with the real CLI and checks errors <-> no object, no-error -> nothing flagged and executable built, error -> flagged and nothing generated, and agreement with the gate model.",
          "§4 C07",
          "Lean 4 proof of the gate's decision logic + pipeline correspondence on near-valid generated programs")
